@@ -1,4 +1,6 @@
-import LibfiveModel
+import LibfiveModel.Op
+import LibfiveModel.Tape
+import LibfiveModel.F32
 open Libfive
 
 namespace Driver
